@@ -599,7 +599,10 @@ func syncIndexedDoc(
 		return err
 	}
 
-	if isNewDoc {
+	if isNewDoc && isDeletedDoc {
+		// the document arrived already deleted: there is nothing to index
+		return nil
+	} else if isNewDoc {
 		return col.indexNewDoc(ctx, doc)
 	} else if isDeletedDoc {
 		return col.deleteIndexedDoc(ctx, oldDoc)
